@@ -438,6 +438,11 @@ pub fn run(cli: Cli) -> ! {
     let distinct: Mutex<HashSet<String>> = Mutex::new(HashSet::new());
     let max_depth = AtomicU64::new(0);
     let ambiguous = AtomicU64::new(0);
+    {
+        let ks = kinds();
+        let honest: Vec<Kind> = ["handshake-login", "login-start", "cookie-response-session-none", "encryption-response-honest", "id3-empty(login-ack/ack-finish)", "client-information"].iter().map(|n| ks.iter().find(|k| k.name == *n).unwrap().clone()).collect();
+        assert_deterministic(&build(&honest, &cfgs[0]), "C06");
+    }
     for cfg in &cfgs {
         // breadth-first: frontier of histories whose connection is still waiting for input
         let mut frontier: Vec<Vec<Kind>> = vec![vec![]];
